@@ -30,7 +30,7 @@ def work(seed):
     env = dict(os.environ, VERIF_REPO=repo, VERIF_TARGET_DIR=os.path.join(scratch, "target"))
     for p in props:
         pr = subprocess.run([os.path.join(HERE, "check"), p], capture_output=True, text=True, env=env)
-        verdict = "ok" if pr.returncode == 0 else ("violation" if pr.returncode == 1 else "no-verdict")
+        verdict = "ok" if pr.returncode == 0 else ("violation" if (pr.returncode == 1 and "VIOLATION property=" in pr.stdout) else "no-verdict")
         cex = "no-failing-input-found" not in pr.stdout if verdict == "violation" else None
         out[p] = {"verdict": verdict, "with_failing_input": cex}
     shutil.rmtree(scratch, ignore_errors=True)
